@@ -314,10 +314,37 @@ func c20positive(c *evid.Ctx, r *gen.Rand, run int) {
 			n.S.Query(ctx, dht.NewAddr(dest), "ping", dht.QueryInput{NumTries: 1, RateLimiting: dht.QueryRateLimiting{WaitOnRetries: true}})
 		}(alloc.V4())
 	}
-	for i := 0; i < 400; i++ {
+	// Sends whose socket write blocks for a while and then fails (full send queue, then an error):
+	// each hands its token back when it fails, and nothing more than that, however long it took and
+	// whatever the other senders did to the limiter meanwhile.
+	slow := map[string]time.Duration{}
+	var slowDests []*net.UDPAddr
+	for i := 0; i < 8; i++ {
+		a := alloc.V4()
+		slow[a.String()] = time.Duration(r.Range(8, 45)) * time.Millisecond
+		slowDests = append(slowDests, a)
+	}
+	n.Conn.SetHook(func(d simnet.Datagram) error {
+		if dur, ok := slow[d.To.String()]; ok {
+			time.Sleep(dur)
+			return simnet.ErrInjectedWriteFailure
+		}
+		return nil
+	})
+	flood := 900
+	for i := 0; i < flood; i++ {
 		n.Conn.Inject(srv.Query("ping", "f", benc.Dict{"id": r.ID()}), alloc.V4())
 		if i%50 == 0 {
 			time.Sleep(5 * time.Millisecond)
+		}
+		if i%100 == 10 && len(slowDests) > 0 {
+			dest := slowDests[0]
+			slowDests = slowDests[1:]
+			wg.Add(1)
+			go func() {
+				defer wg.Done()
+				n.S.Query(context.Background(), dht.NewAddr(dest), "ping", dht.QueryInput{NumTries: 1})
+			}()
 		}
 	}
 	wg.Wait()
@@ -325,7 +352,15 @@ func c20positive(c *evid.Ctx, r *gen.Rand, run int) {
 		c.Inconclusive(err.Error())
 		return
 	}
-	caps := n.Conn.Captured(0)
+	var caps []simnet.Datagram
+	for _, d := range n.Conn.Captured(0) {
+		if d.Err != nil {
+			// the write failed: its token went back to the limiter
+			c.Count("slow writes that failed after blocking (token handed back)", 1)
+			continue
+		}
+		caps = append(caps, d)
+	}
 	c.Eval(1)
 	c.Count("positive-rate scenarios", 1)
 	c.Count("rated datagrams written", len(caps))
@@ -344,7 +379,7 @@ func c20positive(c *evid.Ctx, r *gen.Rand, run int) {
 			break
 		}
 	}
-	if len(caps) < 400+20+60 {
-		c.Count("sends denied for lack of budget", 480-len(caps))
+	if len(caps) < flood+20+60 {
+		c.Count("sends denied for lack of budget", flood+80-len(caps))
 	}
 }
